@@ -17,7 +17,7 @@ RULE = ("each run = a reference world plus transformed twins: identical rebuild,
         "after the pool, a sample of worlds is re-run in a fresh interpreter under another PYTHONHASHSEED; scripted, "
         "uncontrolled and finite-rate greedy parties; non-trivial = a non-identity permutation with >=1 binding constraint "
         "(some pilot below its station maximum while demand remains); distinct = history signature + transformation set")
-PROBES = ["rebuild_pair", "registration_permuted", "constraints_permuted", "sessions_permuted", "shift_pair",
+PROBES = ["unnamed_limits_with_withdrawn_draft", "recorded_arrival_before_plugin_period", "rebuild_pair", "registration_permuted", "constraints_permuted", "sessions_permuted", "shift_pair",
           "hashseed_fresh_interpreter", "sorted_finite_world", "guard_band_skips", "json_clone_pair", "deepcopy_pair", "one_noisy_battery_world", "json_clone_permuted_pair", "second_life_pair",
           "uninterrupted_world"]
 FAULT_DIMENSION = "reordering / hash seed / time shift as metamorphic schedule dimension (no faults injected)"
@@ -54,6 +54,23 @@ def gen(rs, tier):
         rn.choice(l2)["battery"]["noise"] = rn.choice([0.3, 1.0])
         sc["tapes"]["noise"] = "prng"
         sc["one_noisy_battery"] = True
+    re_ = sub(rs, "recorded_arrival")
+    if re_.random() < 0.25:
+        # vehicles whose own record says they arrived before the period of their plug-in event (already on site when the window
+        # opens, plug-in queued late): the recorded arrival stays what the input says, and is what arrival-keyed sorting sees
+        for s_ in sc["sessions"]:
+            if re_.random() < 0.6:
+                s_["ev_arrival"] = s_["arrival"] - re_.randint(1, 6)
+        sc["recorded_arrival_before_plugin"] = True
+    rd = sub(rs, "draft")
+    cs_ = sc["network"]["constraints"]
+    if len(cs_) >= 2 and not sc.get("reconfig") and rd.random() < 0.2:
+        # the site is set up by hand: limits entered without names (the network numbers them), a named draft limit entered
+        # somewhere in between and withdrawn again before the last limit goes in
+        for c_ in cs_:
+            c_["unnamed"] = True
+        st_ = rd.choice(sc["network"]["stations"])["id"]
+        sc["network"]["draft"] = {"at": rd.randrange(len(cs_)), "name": "draft", "coeffs": {st_: 1.0}, "limit": 5.0}
     sc["party"]["quiet_prefix"] = True
     sc["network"]["violation_tolerance"] = 1e-5
     sc["network"]["relative_tolerance"] = 1e-7
@@ -185,6 +202,15 @@ def check(sc):
     # 1. identical rebuild; and a JSON clone of the freshly built simulator (equal inputs by construction)
     if sc.get("one_noisy_battery"):
         out.probe("one_noisy_battery_world")
+    if sc["network"].get("draft"):
+        out.probe("unnamed_limits_with_withdrawn_draft")
+    if sc.get("recorded_arrival_before_plugin"):
+        out.probe("recorded_arrival_before_plugin_period")
+        for s_ in sc["sessions"]:
+            ev_ = tr.sim.ev_history.get(s_["session_id"])
+            if ev_ is not None and "ev_arrival" in s_ and ev_.arrival != s_["ev_arrival"] and len([x for x in sc["sessions"] if x["session_id"] == s_["session_id"]]) == 1:
+                out.add("C10/recorded_arrival_rewritten", "session %s: the input said arrival %d, after the run the record says %r" % (s_["session_id"], s_["ev_arrival"], ev_.arrival))
+                break
     pair("rebuild_pair", copy.deepcopy(sc), 0.0)
     if sc["party"].get("uninterrupted"):
         out.probe("uninterrupted_world")
@@ -244,6 +270,8 @@ def check(sc):
         s["departure"] += k
         if "est_departure" in s:
             s["est_departure"] += k
+        if "ev_arrival" in s:
+            s["ev_arrival"] += k
     for e in sc2["extra_events"]:
         e["t"] += k
     sc2["party"]["time_shift"] = k
